@@ -25,6 +25,7 @@ CONSTANTS Procs, MaxOps, MaxOps2, KindSet, MaxObjs, MaxGC, ProjOn,
           SinkOrder,   \* "write-then-free" = code; "free-then-write" = spec mutant
           RBufClear,   \* "clear" = code (putJSONEncoder nils reflectBuf after freeing it); "keep" = spec mutant
           HookOrder,   \* "hook-then-put" = code; "put-then-hook" = spec mutant
+          EntryOrder,  \* "write-then-put" = code (the checked entry goes back to its pool after its cores were written); "put-then-write" = spec mutant
           Emit
 
 Kinds == {"plain", "reflect", "hook", "reflect-hook"}     \* does the call use a reflection buffer / an after-write hook
@@ -69,9 +70,13 @@ Get(p, from, slot, pl, next, fresh) ==
      ELSE /\ pools' = [pools EXCEPT ![pl] = SubSeq(@, 1, Len(@) - 1)] /\ UNCHANGED nobj
           /\ held' = [held EXCEPT ![p][slot] = pools[pl][Len(pools[pl])]]
   /\ pc' = [pc EXCEPT ![p] = next]
-GetCE(p, fresh) == /\ Get(p, "getce", "ce", "ce", "getenc", fresh)
+GetCE(p, fresh) == /\ Get(p, "getce", "ce", "ce", IF EntryOrder = "write-then-put" THEN "getenc" ELSE "earlyput", fresh)
                    /\ ceOf' = [ceOf EXCEPT ![held'[p].ce] = Me(p)]           \* reset + Entry = ent
                    /\ UNCHANGED <<data, encR, kind, opno, bad>> /\ Rec(p, IF fresh THEN "getce:new" ELSE "getce")
+\* mutant order: the entry is handed back before the loop over its cores; the call keeps using its (stale) reference
+EarlyPut(p) == /\ pc[p] = "earlyput" /\ pools' = [pools EXCEPT !.ce = Append(@, held[p].ce)]
+               /\ pc' = [pc EXCEPT ![p] = "getenc"]
+               /\ UNCHANGED <<nobj, data, ceOf, encR, kind, opno, held, bad>> /\ Rec(p, "earlyput")
 GetEnc(p, fresh) == /\ Get(p, "getenc", "enc", "enc", "getbuf", fresh)
                     /\ UNCHANGED <<data, ceOf, encR, kind, opno, bad>> /\ Rec(p, IF fresh THEN "getenc:new" ELSE "getenc")
 GetBuf(p, fresh) == /\ Get(p, "getbuf", "buf", "buf", IF kind[p] \in {"reflect", "reflect-hook"} THEN "getrbuf" ELSE "encode", fresh)
@@ -98,7 +103,8 @@ PutEnc(p) == /\ pc[p] = "putenc"
              /\ UNCHANGED <<nobj, data, ceOf, kind, opno, bad>> /\ Rec(p, "putenc")
 Sink(p) == /\ pc[p] = "sink"
            /\ stream' = Append(stream, data[held[p].buf])
-           /\ bad' = IF bad = "" /\ data[held[p].buf] # Me(p) /\ held[p].buf # 0 THEN "sink saw foreign bytes" ELSE bad
+           /\ bad' = IF bad = "" /\ data[held[p].buf] # Me(p) /\ held[p].buf # 0 THEN "sink saw foreign bytes"
+                     ELSE IF bad = "" /\ ceOf[held[p].ce] # Me(p) THEN "entry written through another call's checked entry (its cores)" ELSE bad
            /\ pc' = [pc EXCEPT ![p] = IF SinkOrder = "write-then-free" THEN "free" ELSE (IF kind[p] \in {"hook", "reflect-hook"} /\ HookOrder = "hook-then-put" THEN "hook" ELSE "putce")]
            /\ UNCHANGED <<pools, nobj, data, ceOf, encR, kind, opno, held>> /\ Rec(p, "sink")
 \* in the mutant order the buffer is freed but the stale reference is still used by the sink step
@@ -115,7 +121,7 @@ Hook(p) == /\ pc[p] = "hook"
            /\ held' = IF HookOrder = "hook-then-put" THEN held ELSE [held EXCEPT ![p] = None]
            /\ UNCHANGED <<pools, nobj, data, ceOf, encR, kind, opno>> /\ Rec(p, "hook")
 PutCE(p) == /\ pc[p] = "putce"
-            /\ pools' = [pools EXCEPT !.ce = Append(@, held[p].ce)]
+            /\ pools' = IF EntryOrder = "write-then-put" THEN [pools EXCEPT !.ce = Append(@, held[p].ce)] ELSE pools
             /\ IF HookOrder = "put-then-hook" /\ kind[p] \in {"hook", "reflect-hook"}
                THEN /\ pc' = [pc EXCEPT ![p] = "hook"] /\ held' = [held EXCEPT ![p].buf = 0]     \* ce reference kept for the hook
                ELSE /\ pc' = [pc EXCEPT ![p] = "idle"] /\ held' = [held EXCEPT ![p] = None]
@@ -131,7 +137,7 @@ NextStep == \/ GC /\ UNCHANGED stream
                \/ /\ UNCHANGED stream
                   /\ \/ \E k \in KindSet : Start(p, k)
                      \/ \E f \in BOOLEAN : GetCE(p, f) \/ GetEnc(p, f) \/ GetBuf(p, f) \/ GetRBuf(p, f)
-                     \/ Encode(p) \/ PutEnc(p) \/ Free(p) \/ Hook(p) \/ PutCE(p)
+                     \/ Encode(p) \/ PutEnc(p) \/ Free(p) \/ Hook(p) \/ PutCE(p) \/ EarlyPut(p)
 Next == /\ NextStep
         /\ proj' = IF Len(sched') > Len(sched) /\ sched'[Len(sched')][2] \in {"encode", "sink"} /\ ProjOn
                    THEN Append(proj, sched'[Len(sched')]) ELSE proj
